@@ -25,7 +25,9 @@
           `hold_persists` (timed invariant over any event sequence that stays
           below priority 6 and before the deadline), `min_on_hold` /
           `min_off_hold` (the two combined), `hold_released` (what the timer does),
-          `second_fire_quiescent` (the release cascade stops after two firings)
+          `second_fire_quiescent` (the release cascade stops after two firings),
+          `write_keeps_timer` / `write_timer_armed` (no command, in particular no override
+          at priority 1..5 during a hold, ever cancels the pending release)
   * the re-entrant `WriteProperty(…, priority=6)` never nests deeper than once:
         `wp_fuel_irrelevant` (so the `recursion` answer of the fuel-0 case is unreachable
         from `step`, which starts with depth 8)
@@ -949,6 +951,55 @@ theorem second_fire_quiescent (cfg : Cfg V) (s : St V) (t1 t2 dl dl2 : Nat)
     simp [setSlot_setSlot]
   rw [hacc]
   simp
+
+/-- **a command never disarms the timer**: whatever is written (also an override at
+    priority 1..5 that flips the state to one without a minimum time), the release
+    task stays scheduled — at its old deadline, or re-armed for a new hold.  With
+    `hold_released` this is the clause "and release the slot afterwards" for holds
+    that are overridden while they run. -/
+theorem write_keeps_timer (cfg : Cfg V) (s : St V) (p : PropId) (v : Option V) (ai pr : Option Int) :
+    (step cfg s (.write p v ai pr)).1.deadline = s.deadline ∨
+    ∃ d, (step cfg s (.write p v ai pr)).1.deadline = some (s.now + 1000000 * (d + 1)) := by
+  rw [step_write]
+  cases target cfg p v ai pr with
+  | error e => left; rfl
+  | ok i =>
+    simp only []
+    unfold accept
+    by_cases hw : winner cfg (setSlot s.slots i v) = s.present
+    · left; simp [hw]
+    · simp only [hw, if_false]
+      by_cases hm : cfg.minOnOff = false
+      · left; simp [hm]
+      · simp only [hm]
+        cases holdDelay cfg (winner cfg (setSlot s.slots i v)) with
+        | none => left; rfl
+        | some d =>
+          cases d with
+          | zero => left; rfl
+          | succ d =>
+            simp only []
+            cases cfg.check (winner cfg (setSlot s.slots i v)) with
+            | some e => left; rfl
+            | none => right; exact ⟨d, rfl⟩
+
+theorem write_timer_armed (cfg : Cfg V) (s : St V) (p : PropId) (v : Option V) (ai pr : Option Int)
+    (h : s.deadline.isSome) : (step cfg s (.write p v ai pr)).1.deadline.isSome := by
+  rcases write_keeps_timer cfg s p v ai pr with h1 | ⟨d, h1⟩
+  · rw [h1]; exact h
+  · rw [h1]; rfl
+
+/-- non-vacuity: minimumOnTime 5 s, no minimumOffTime; active at priority 10, flipped by
+    priority 3 after 2 s (the new state has no minimum time): slot 6 keeps `active`, the
+    timer stays at 5 s, and the tick at 5 s releases the slot -/
+example :
+    let cfg : Cfg Nat := ⟨0, fun _ => none, true, 0, 1, 5, 0⟩
+    let s1 := run cfg (init 0) [command (some 1) (some 10), .tick 2000000, command (some 0) (some 3)]
+    let s2 := run cfg s1 [.tick 4999999]
+    let s3 := run cfg s2 [.tick 5000000]
+    (s1.present = 0 ∧ s1.slots 6 = some 1 ∧ s1.deadline = some 5000000) ∧
+    (s2.slots 6 = some 1) ∧ (s3.slots 6 = none ∧ s3.deadline = none ∧ s3.present = 0) := by
+  decide
 
 /-- non-vacuity (and the repaired direction of the two times): minimumOnTime 10 s,
     minimumOffTime 3 s; an *active* command at priority 8 is held 10 s — still held
